@@ -293,6 +293,18 @@ impl Peer {
             return Err(Error::from(ErrorKind::InvalidInput));
         }
 
+        if response.public_key == wallet.public_key {
+            // a signature by this node's own key proves nothing about the remote side (it is what this node
+            // hands out when it answers a challenge): a reflected response is refused
+            warn!(
+                "peer : {:?} answered the handshake with this node's own key",
+                self.index
+            );
+            self.mark_as_disconnected(current_time);
+            io_handler.disconnect_from_peer(self.index).await?;
+            return Err(Error::from(ErrorKind::InvalidInput));
+        }
+
         if let Some(known_public_key) = self.public_key {
             if response.public_key != known_public_key {
                 // this peer instance was authenticated under another key before (e.g. a static peer that
